@@ -60,6 +60,9 @@ RULE = ("simcase scenario (1-6 stations, 0-25 sessions, back-to-back reuse, simu
         "constraints (subsets of stations, signed / fractional coefficients, default / duplicate names); scripted "
         "multi-period schedulers (model + oracle) or real algorithms (oracle only); 12% malformed (overlap, dep<=arr, "
         "negative timestamps = late events, bad schedules, scheduler crash); every case runs clean AND vandalised; "
+        "exact-boundary stream (8% + 12 corpus cases): sessions whose remaining demand is float-EXACTLY 1e-3 kWh, one ulp "
+        "above and one ulp below (from the plug-in on, or after 1-3 charging periods on a (V, period, pilot) grid point whose "
+        "arithmetic the generator verifies to be exact), then held there while connected; "
         "thorough adds EVERY valid layout with <=3 sessions on <=2 stations within horizon 5 x max_recompute in "
         "{None,1,2,3} x a cycling recompute-event set (5728 cases; clean twin for every 8th); "
         "non-trivial = >=3 invocations, at least one triggered by max_recompute alone or at least one period without "
@@ -648,7 +651,7 @@ def oracle(case, obs):
                 if not _same(g, want):
                     fails.append({"kind": "infra_wrong", "detail": f"period {t}: per-station getters {g}, built with {want}"})
                     break
-            if v.get("amp_periods") is not None:
+            if v.get("amp_periods") is not None and [s["session"] for s in tr["sessions"]] == [s["session"] for s in v["sessions"]]:
                 for s, ap in zip(tr["sessions"], v["amp_periods"]):
                     V = next(float(I.num(st["V"])) for st in case["stations"] if st["id"] == s["station"])
                     want = _num(s["remaining_demand"]) * 1000 / V * 60 / float(I.num(case["period"]))
